@@ -361,6 +361,22 @@ fn library() -> Lib {
         Ty::Tuple(vec![tp("A"), opt(Ty::Struct("Pr".into(), vec![tp("A"), tp("B")]))]),
         blk(vec![], Expr::Tuple(vec![var("a"), Expr::Constr { enum_name: "Opt".into(), variant: "Non".into(), ty: opt(Ty::Struct("Pr".into(), vec![tp("A"), tp("B")])), args: vec![], qualified: true }])),
     )));
+    // a generic function that calls itself with its type parameters swapped: instantiating it at (X, Y) needs the
+    // instance at (Y, X) too (added after a seeded change that bound a recursive call to the instance being specialised)
+    items.push(Item::Fn(fnd(
+        "swaprec",
+        &[("A", &[]), ("B", &[])],
+        vec![("a", tp("A")), ("b", tp("B")), ("n", I32)],
+        I32,
+        blk(
+            vec![],
+            Expr::If(
+                Box::new(bin(BinOp::Le, var("n"), i(0))),
+                Box::new(blk(vec![], i(0))),
+                Box::new(blk(vec![], bin(BinOp::Add, i(1), Expr::Call { name: "swaprec".into(), targs: vec![("A".into(), tp("B")), ("B".into(), tp("A"))], args: vec![var("b"), var("a"), bin(BinOp::Sub, var("n"), i(1))] }))),
+            ),
+        ),
+    )));
     // monomorphic unary functions used as callbacks
     items.push(Item::Fn(fnd("i_to_s", &[], vec![("x", I32)], Ty::Str, blk(vec![], bin(BinOp::Add, s("#"), bi("int32_to_string", vec![var("x")]))))));
     items.push(Item::Fn(fnd("i_to_b", &[], vec![("x", I32)], Ty::Bool, blk(vec![], bin(BinOp::Gt, var("x"), i(2))))));
@@ -428,7 +444,7 @@ fn gen_calls(g: &mut Gen, n: usize) -> Vec<Call> {
         let t = g.rng.pick_ref(&pool).clone();
         let u = g.rng.pick_ref(&pool).clone();
         let val = |g: &mut Gen, ty: &Ty| g.gen_expr(ty, 1, &[]);
-        let which = g.rng.below(39);
+        let which = g.rng.below(41);
         let c = match which {
             0 => Call { name: "idg", targs: vec![("T".into(), t.clone())], args: vec![val(g, &t)], ret: t.clone() },
             1 => Call { name: "pairg", targs: vec![("T".into(), t.clone()), ("U".into(), u.clone())], args: vec![val(g, &t), val(g, &u)], ret: Ty::Tuple(vec![t.clone(), u.clone()]) },
@@ -484,6 +500,7 @@ fn gen_calls(g: &mut Gen, n: usize) -> Vec<Call> {
             35 | 36 => Call { name: "errg", targs: vec![("T".into(), t.clone()), ("E".into(), u.clone())], args: vec![val(g, &u)], ret: Ty::Enum("Res".into(), vec![t.clone(), u.clone()]) },
             37 => Call { name: "tagg", targs: vec![("T".into(), t.clone()), ("U".into(), u.clone())], args: vec![val(g, &t)], ret: Ty::Tuple(vec![t.clone(), opt(u.clone())]) },
             38 => Call { name: "halfpr", targs: vec![("A".into(), t.clone()), ("B".into(), u.clone())], args: vec![val(g, &t)], ret: Ty::Tuple(vec![t.clone(), opt(Ty::Struct("Pr".into(), vec![t.clone(), u.clone()]))]) },
+            39 | 40 => Call { name: "swaprec", targs: vec![("A".into(), t.clone()), ("B".into(), u.clone())], args: vec![val(g, &t), val(g, &u), i(g.rng.below(4) as i128)], ret: I32 },
             19 | 20 => Call { name: "unwrg", targs: vec![("T".into(), t.clone())], args: vec![Expr::Call { name: "mkwrg".into(), targs: vec![("T".into(), t.clone())], args: vec![val(g, &t)] }], ret: t.clone() },
             _ => {
                 let a = g.rng.pick_ref(&showable).clone();
